@@ -97,6 +97,7 @@ class World:
         self.cur_token = {}                  # caller name -> token being worked on
         self.observing = False               # set while an oracle inspects the SUT
         self.fault_sites = []                # (op index, fault, op kind, httpcore site)
+        self.log_sites = bool(scenario.get("log_sites"))
 
     def rng(self, name):
         return self.streams.get(name)
